@@ -1342,6 +1342,8 @@ def _d2_assemble_ragged(ck, rule, mod):
         return
     RA = bst.targets[0].id
     stripe_len = C('%s[%s::mpi.size()]' % (GL, r))
+    if _d2_ragged_offsets(ck, rule, mod, fr, fi, F, loop, r, RA, P, GL):
+        return
     stores = [(st, t, k) for st, t, k in _stripe_stores(fi, mod, fr, loop, r)]
     # which object do the stores fill?  the one whose flat data are returned
     by_kind = {}
@@ -1364,6 +1366,8 @@ def _d2_assemble_ragged(ck, rule, mod):
         vv = classify(val, ['ra.RaggedArray(%s, lengths=%s)' % (RA, stripe_len)], {RA, GL, r, P})
         _decide(ck, vv, rule, mod, st, F, u(st) + '  [value: %s]' % u(val), 'rows r, r+size, ... of the global ragged array receive rank r\'s rows, cut by global_lengths[r::size]',
                 'global_ra[rank::size] must receive RaggedArray(rank_array, lengths=global_lengths[rank::size]): the lengths of rank r are the stripe r of the global lengths')
+        if vv[0] == 'match':
+            _d2_ragged_representation(ck, rule + '.representation', mod, st, F, GL, r)
         # RaggedArray.__setitem__ cannot take a one-row RaggedArray through a slice: needs > 1 rows
         rng = [int_range(fi, c, 'len(%s)' % stripe_len, o) for c, o in path_atoms(fi, st)]
         rng = [x for x in rng if x is not None]
@@ -1384,6 +1388,15 @@ def _d2_assemble_ragged(ck, rule, mod):
         rng = [x for x in (int_range(fi, c, 'len(%s)' % stripe_len, o) for c, o in path_atoms(fi, st)) if x is not None]
         if any(x in ((None, 1), (1, 1)) for x in rng):
             ck.ok(rule, mod, st, 'guard of ' + u(st), 'runs only when the rank owns at most one trajectory')
+            # ... and exactly one: a rank beyond the number of trajectories owns the EMPTY stripe
+            # (len(global_lengths[rank::size]) == 0 iff rank >= len(global_lengths)); row `rank` does not exist then
+            if all(_permits(x, 0) for x in rng):
+                ck.bad(rule + '.empty-stripe', mod, st, F, 'single-row store for a rank that owns no trajectory',
+                       'the single-row store global_ra[rank] = rank_array also runs when len(global_lengths[rank::size]) == 0 (the guard '
+                       'admits 0): with more ranks than trajectories `rank` >= len(global_lengths) and the store raises IndexError on '
+                       'every rank; a rank that owns nothing must contribute nothing')
+            else:
+                ck.ok(rule + '.empty-stripe', mod, st, 'guard of ' + u(st), 'the single-row store is skipped for a rank that owns no trajectory')
         elif all(_permits(x, 2) for x in rng):
             ck.bad(rule, mod, st, F, 'guard of ' + u(st), 'the single-row store global_ra[rank] = rank_array must be limited to ranks that own one trajectory '
                    '(len(global_lengths[rank::size]) <= 1); as it stands it also runs for ranks with several trajectories and overwrites row `rank` with the whole array of the rank')
@@ -1407,6 +1420,163 @@ def _d2_assemble_ragged(ck, rule, mod):
     else:
         ck.missing(rule, 'stores of the rank loop fill different objects: %s' % sorted(Gs))
     ck.floor(rule, n, 1, 'stores into the global ragged array inside the rank loop')
+
+
+RAMOD = 'enspara/ra/ra.py'
+
+
+def _ra_two_representations(ck):
+    """Facts read from enspara/ra/ra.py (None if the class is not found):
+    (rect, obj, raw) - the constructor stores `self._array` as a reshape of
+    the flat data on some path (rectangular block, taken when all lengths are
+    equal) and as an object array of rows on another, and __setitem__ stores
+    `value._array` of a RaggedArray value into `self._array[<index>]` as it
+    is.  With all three, `X[a::b] = Y` (both RaggedArrays) is defined only
+    when X and Y have the same representation, i.e. when `all lengths of Y
+    equal` implies `all lengths of X equal`."""
+    m = ck.repo.mod(RAMOD)
+    init = m.functions.get('RaggedArray.__init__')
+    seti = m.functions.get('RaggedArray.__setitem__')
+    if init is None or seti is None:
+        return None
+    me = params(init)[0]
+    rect = obj = False
+    for st in walk_local(init):
+        if isinstance(st, ast.Assign) and any(isinstance(t, ast.Attribute) and t.attr == '_array' and u(t.value) == me for t in st.targets):
+            calls = [c for c in ast.walk(st.value) if isinstance(c, ast.Call)]
+            if any(isinstance(c.func, ast.Attribute) and c.func.attr == 'reshape' for c in calls):
+                rect = True
+            if any(kwarg(c, 'dtype') is not None and const_value(kwarg(c, 'dtype')) in ('O', 'object') or
+                   (kwarg(c, 'dtype') is not None and u(kwarg(c, 'dtype')) == 'object') for c in calls):
+                obj = True
+    me2 = params(seti)[0]
+    val = params(seti)[2] if len(params(seti)) > 2 else 'value'
+    unwrap = any(isinstance(st, ast.Assign) and u(st.value) == '%s._array' % val and val in target_names(st.targets[0]) for st in walk_local(seti))
+    raw = unwrap and any(isinstance(st, ast.Assign) and isinstance(st.targets[0], ast.Subscript) and u(st.targets[0].value) == '%s._array' % me2 and
+                         isinstance(st.targets[0].slice, ast.Name) and u(st.value) == val for st in walk_local(seti))
+    return rect, obj, raw
+
+
+def _d2_ragged_representation(ck, rule, mod, st, F, GL, r):
+    """finding assemble-ragged-equal-local-lengths: the stripe store assigns
+    RaggedArray(<rank data>, lengths=GL[r::size]) through a slice of
+    RaggedArray(<global>, lengths=GL)."""
+    facts = _ra_two_representations(ck)
+    if facts is None:
+        ck.missing(rule, 'RaggedArray.__init__ / __setitem__ not found in %s' % RAMOD)
+        return
+    rect, obj, raw = facts
+    if rect and obj and raw:
+        ck.bad(rule, mod, st, F, 'slice store of a RaggedArray over the stripe lengths into the RaggedArray over the global lengths',
+               'RaggedArray keeps rows of equal length as a rectangular 2-d block and rows of unequal length as a 1-d object array '
+               '(RaggedArray.__init__), and __setitem__ stores value._array as it is: the store is defined only if `%s[%s::size] all equal` '
+               'implies `%s all equal`, which does not hold (e.g. lengths [3, 5, 3, 7] on 2 ranks: rank 0 owns [3, 3]) -> ValueError '
+               '"could not broadcast" on every rank at the end of the clustering run; write rank r\'s rows through flat offsets instead' % (GL, r, GL))
+    else:
+        ck.ok(rule, mod, st, u(st), 'RaggedArray item assignment does not depend on the row representation of the value '
+              '(constructor/__setitem__ of %s no longer have the rectangular special case)' % RAMOD)
+
+
+_EXCL_CUMSUM = ['np.cumsum(%(L)s) - %(L)s', '%(L)s.cumsum() - %(L)s', 'np.append([0], np.cumsum(%(L)s)[:-1])', 'np.append([0], %(L)s.cumsum()[:-1])',
+                'np.concatenate([[0], np.cumsum(%(L)s)])', 'np.concatenate(([0], np.cumsum(%(L)s)))', 'np.concatenate([[0], %(L)s.cumsum()])',
+                'np.insert(np.cumsum(%(L)s), 0, 0)', 'np.r_[0, np.cumsum(%(L)s)]', 'np.concatenate([[0], np.cumsum(%(L)s)[:-1]])',
+                'np.concatenate(([0], np.cumsum(%(L)s)[:-1]))']
+
+
+def _d2_ragged_offsets(ck, rule, mod, fr, fi, F, loop, r, RA, P, GL):
+    """The reassembly written with flat offsets (the repaired form): inside
+    the rank loop, `for row in range(rank, len(GL), size)` copies
+    RA[pos:pos + GL[row]] to <flat>[S[row]:S[row] + GL[row]] with S the
+    exclusive cumulative sum of GL and pos a running offset that starts at 0
+    for every rank.  Returns False when the loop has no such inner loop (the
+    caller then analyses the RaggedArray form)."""
+    inner = []
+    for l in walk_local(loop):
+        if isinstance(l, ast.For) and l is not loop and isinstance(l.target, ast.Name) and isinstance(l.iter, ast.Call) and \
+                call_name(l.iter) == 'range' and len(l.iter.args) == 3 and is_size(fi, l.iter.args[2], l):
+            inner.append(l)
+    if len(inner) != 1:
+        return False
+    il = inner[0]
+    row = il.target.id
+    sc = {r, GL, row, RA, P}
+
+    def dec(ok, node, site, construct, okmsg, badmsg, scope=sc):
+        if ok:
+            ck.ok(rule, mod, site, construct, okmsg)
+        elif node is not None and closed_over(node, scope):
+            ck.bad(rule, mod, site, F, construct, badmsg)
+        else:
+            ck.missing(rule, 'construct not recognised at %s: %s (%s)' % (mod.loc(site), construct[:120], badmsg[:120]))
+        return ok
+    it = xn(fi, il.iter, il)
+    vv = classify(it, ['range(%s, len(%s), mpi.size())' % (r, GL), 'range(%s, %s.shape[0], mpi.size())' % (r, GL), 'range(%s, %s.size, mpi.size())' % (r, GL)], {r, GL})
+    _decide(ck, vv, rule, mod, il, F, 'rows of rank %s: %s' % (r, u(it)), 'rank r owns rows r, r + size, ... below len(%s)' % GL,
+            'the rows of rank `%s` are range(%s, len(%s), mpi.size())' % (r, r, GL))
+    sts = [(st, t) for st, t in subscript_stores(il) if isinstance(st, ast.Assign) and isinstance(t.slice, ast.Slice)]
+    if len(sts) != 1:
+        ck.missing(rule, 'exactly one slice store inside the per-row loop of %s (found %d)' % (F, len(sts)))
+        return True
+    st, t = sts[0]
+    n_t = C('%s[%s]' % (GL, row))
+    lo, hi = t.slice.lower, t.slice.upper
+    if lo is None or hi is None or t.slice.step is not None:
+        dec(False, ast.Constant(value=0), st, u(st), '', 'the destination must be <flat>[start_of_row:start_of_row + %s]' % n_t)
+        return True
+    lo_x, hi_x = xn(fi, lo, st), xn(fi, hi, st)
+    lo_t = u(lo_x)
+    dec(u(hi_x) in (C('%s + %s' % (lo_t, n_t)), C('%s + %s' % (n_t, lo_t))), hi_x, st, 'destination length: ' + u(t),
+        'row `%s` occupies %s cells of the flat array' % (row, n_t), 'the destination slice of row `%s` must be %s cells long' % (row, n_t), sc | set(names_loaded(lo_x)))
+    # start of the row in the flat array = exclusive cumulative sum of the global lengths
+    okS = False
+    Sx = None
+    if isinstance(lo_x, ast.Subscript) and u(lo_x.slice) == row:
+        Sx = lo_x.value
+        if isinstance(Sx, ast.Attribute) and Sx.attr == 'starts' and isinstance(Sx.value, ast.Name):
+            gd = [d for d in assigns_to(fr, Sx.value.id) if isinstance(d, ast.Assign)]
+            okS = len(gd) == 1 and _classify(norm(gd[0].value), ['ra.RaggedArray(__, lengths=%s)' % GL, 'RaggedArray(__, lengths=%s)' % GL])[0] == 'match'
+        else:
+            okS = _classify(Sx, [C(f % {'L': GL}) for f in _EXCL_CUMSUM])[0] == 'match'
+    dec(okS, lo_x, st, 'destination start: ' + u(lo_x), 'row k starts at sum(%s[:k]) of the flat array' % GL,
+        'row `%s` must be written at the exclusive cumulative sum of `%s` (sum of the lengths of all earlier rows)' % (row, GL), {r, GL, row})
+    # the source: RA[pos:pos + n] with a running offset that restarts at 0 for every rank
+    src = xn(fi, st.value, st, strict=False)
+    pos = None
+    ok_src = False
+    if isinstance(src, ast.Subscript) and isinstance(src.slice, ast.Slice) and u(src.value) == RA and src.slice.step is None and \
+            isinstance(src.slice.lower, ast.Name) and src.slice.upper is not None:
+        pos = src.slice.lower.id
+        ok_src = u(src.slice.upper) in (C('%s + %s' % (pos, n_t)), C('%s + %s' % (n_t, pos)))
+    dec(ok_src, src, st, 'source: ' + u(src), 'the next %s values of the array broadcast by rank %s' % (n_t, r),
+        'the source must be %s[pos:pos + %s] with pos the running offset into the data of rank `%s`' % (RA, n_t, r), sc | ({pos} if pos else set()))
+    if pos is not None and ok_src:
+        inits = [d for d in assigns_to(fr, pos) if isinstance(d, ast.Assign) and not inside(mod, d, il)]
+        advs = [d for d in assigns_to(fr, pos) if inside(mod, d, il)]
+        ok_init = len(inits) == 1 and const_value(inits[0].value) == 0 and inside(mod, inits[0], loop) and fi.cfg.dominates(inits[0], il)
+        dec(ok_init, inits[0].value if len(inits) == 1 else None, inits[0] if inits else il, '%s = 0 for every rank' % pos,
+            'the running offset restarts at 0 for the data of every rank',
+            'the running offset `%s` must be reset to 0 inside the rank loop, before the rows of that rank are copied' % pos)
+        ok_adv = False
+        av = None
+        if len(advs) == 1:
+            a = advs[0]
+            if isinstance(a, ast.AugAssign) and isinstance(a.op, ast.Add):
+                av = ast.BinOp(left=ast.Name(id=pos, ctx=ast.Load()), op=ast.Add(), right=xn(fi, a.value, a))
+            elif isinstance(a, ast.Assign):
+                av = xn(fi, a.value, a, stop=(pos,), strict=False)
+            ok_adv = av is not None and u(norm(av)) in (C('%s + %s' % (pos, n_t)), C('%s + %s' % (n_t, pos))) and \
+                fi.cfg.dominates(st, a) and not any(isinstance(x, (ast.If, ast.Try, ast.While)) for x in [mod.parent.get(a)])
+        dec(ok_adv, av, advs[0] if advs else il, '%s advances by %s after the copy' % (pos, n_t), 'running offset advances by the row length',
+            'the running offset `%s` must advance by %s exactly once per row, after the copy' % (pos, n_t), sc | {pos})
+    # the flat array that is filled is what the function returns
+    root = t.value
+    while isinstance(root, (ast.Attribute, ast.Subscript)):
+        root = root.value
+    rets = returns_of(fr)
+    ck.check(isinstance(root, ast.Name) and bool(rets) and all(root.id in names_loaded(xn(fi, x.value, x)) for x in rets), rule, mod, rets[0] if rets else fr, F,
+             'return ' + (u(rets[0].value) if rets else '?'), 'the reassembled data are returned', 'the function must return the flat data it fills (`%s`)' % u(t.value))
+    ck.floor(rule, 1, 1, 'stores into the global ragged array inside the rank loop')
+    return True
 
 
 def _pair_component(binders, mod, node, name):
@@ -2081,6 +2251,18 @@ def _mpi_arm(e):
     return e
 
 
+def _local_max_forms(P):
+    """the local term of a MAX reduction: the maximum of the local array, or -
+    on a rank that owns nothing - the identity of max (-inf)."""
+    forms = ['%s.max()' % P, '%s.max(initial=-np.inf)' % P]
+    for g in ('0 < len(%s)', 'len(%s)', '%s.size', '0 < %s.size', 'len(%s) != 0', '0 < %s.shape[0]', '1 <= len(%s)'):
+        forms.append('%s.max() if %s else -np.inf' % (P, g % P))
+        forms.append("%s.max() if %s else -float('inf')" % (P, g % P))
+    for g in ('len(%s) == 0', '%s.size == 0', 'len(%s) < 1'):
+        forms.append('-np.inf if %s else %s.max()' % (g % P, P))
+    return forms
+
+
 def d8_reductions(ck):
     rule = 'C14.D8.reductions'
     mod = ck.repo.mod(OPS)
@@ -2120,7 +2302,7 @@ def d8_reductions(ck):
             vv = classify(xn(fim, r.value, r), ['%s.max()' % Pm], {Pm})
             ck.decide(vv, rule, mod, r, 'striped_array_max', 'single rank: ' + u(r.value), 'with one rank the max is the local max', 'with a single rank the striped max must be the local max')
             continue
-        _allreduce_of(ck, rule, mod, fim, fm, 'striped_array_max', r.value, r, 'MAX', ['%s.max()' % Pm], Pm, 'the striped max')
+        _allreduce_of(ck, rule, mod, fim, fm, 'striped_array_max', r.value, r, 'MAX', _local_max_forms(Pm), Pm, 'the striped max')
     # ---- _msq uses the striped mean
     mk = ck.repo.mod(KM)
     f = mk.func('_msq')
@@ -2196,6 +2378,358 @@ def d8_reductions(ck):
     ck.floor(rs, nd, 2, 'definitions of the stopping radius reaching the loop test of kcenters')
 
 
+# ---------------------------------------------------------------------------
+# Rules added after the bug hunt (notes/findings/clmpi): a rank may own NOTHING
+# (more ranks than trajectories - the quantifier of C14 includes such worlds;
+# load_npy_as_striped and striped_array_mean accept them since 940cbb2/69f66b9)
+
+_REDUCE_NO_IDENTITY = ('max', 'min', 'argmax', 'argmin')
+# rank-local parameters whose emptiness is checked: the striped operations and
+# the MPI k-centers iteration (the path kcenters(mpi_mode=True) takes)
+EMPTY_LOCAL_SCOPE = [(OPS, q) for (rel, q) in LOCAL_PARAMS if rel == OPS] + [(KC, '_kcenters_iteration_mpi')]
+
+
+def _nonempty_test(fi, test, P, here):
+    """True: the test being TRUE implies len(P) > 0; False: the test being
+    FALSE implies it; None: unrelated."""
+    t = xt(fi, test, here)
+    pos = {C(f % P) for f in ('0 < len(%s)', 'len(%s)', '%s.size', '0 < %s.size', 'len(%s) != 0', '0 < %s.shape[0]', '1 <= len(%s)', '%s.shape[0]')}
+    neg = {C(f % P) for f in ('len(%s) == 0', '%s.size == 0', 'len(%s) < 1', 'not len(%s)', 'not %s.size', '%s.shape[0] == 0')}
+    if t in pos:
+        return True
+    if t in neg:
+        return False
+    return None
+
+
+def _guarded_nonempty(fi, mod, node, P, fn):
+    """the expression node is evaluated only when the rank-local array P is
+    non-empty: a dominating branch assumption on len(P) / P.size, or the arm
+    of a conditional expression / `and` chain with such a test."""
+    here = fi.stmt(node)
+    for c, o in path_atoms(fi, here):
+        if isinstance(c, tuple) and c[0] == 'expr':
+            v = _nonempty_test(fi, c[1], P, o)
+            if v is not None and v == c[2]:
+                return True
+            continue
+        for a in ('len(%s)' % P, C('%s.size' % P), C('%s.shape[0]' % P)):
+            rg = int_range(fi, c, a, o)
+            if rg is not None and not _permits(rg, 0):
+                return True
+    child, p = node, mod.parent.get(node)
+    while p is not None and p is not here and p is not fn:
+        if isinstance(p, ast.IfExp) and child is not p.test:
+            v = _nonempty_test(fi, p.test, P, here)
+            if v is not None and v == (child is p.body):
+                return True
+        if isinstance(p, ast.BoolOp) and isinstance(p.op, ast.And):
+            for prev in p.values[:p.values.index(child)] if child in p.values else []:
+                if _nonempty_test(fi, prev, P, here) is True:
+                    return True
+        child, p = p, mod.parent.get(p)
+    return False
+
+
+def d11_empty_local(ck):
+    """On a rank that owns no frame every rank-local array has length 0.  An
+    identity-less reduction of it (max/min/argmax/argmin without initial=)
+    raises ValueError and reading its element 0 raises IndexError - on that
+    rank only, so the others are left waiting in the next collective.  Every
+    such site on a rank-local parameter (uniformity table) must be guarded by
+    a non-emptiness test."""
+    rule = 'C14.D10.every-rank.empty-local'
+    n = 0
+    for rel, q in EMPTY_LOCAL_SCOPE:
+        mod = ck.repo.mod(rel)
+        fn = mod.functions.get(q)
+        if fn is None:
+            ck.missing(rule, 'function %s in %s' % (q, rel))
+            continue
+        fi = finfo(mod, fn)
+        ck.analysed(mod, fn)
+        for P in LOCAL_PARAMS[(rel, q)]:
+            if P not in params(fn):
+                ck.missing(rule, 'rank-local parameter `%s` of %s' % (P, q))
+                continue
+
+            def is_P(e, here):
+                return isinstance(e, ast.Name) and e.id == P and fi.rd.defs_at(here, P) == {'PARAM'}
+            red, elt = [], []
+            for x in walk_local(fn):
+                here = fi.stmt(x) if isinstance(x, (ast.Call, ast.Subscript)) else None
+                if here is None:
+                    continue
+                if isinstance(x, ast.Call) and isinstance(x.func, ast.Attribute) and x.func.attr in _REDUCE_NO_IDENTITY and \
+                        is_P(x.func.value, here) and kwarg(x, 'initial') is None and kwarg(x, 'axis') is None and not x.args:
+                    red.append(x)
+                if isinstance(x, ast.Subscript) and isinstance(x.ctx, ast.Load) and is_P(x.value, here) and const_value(x.slice) in (0, -1) and \
+                        not isinstance(const_value(x.slice), bool):
+                    elt.append(x)
+            n += 1
+            for kind, sites, construct, what in (
+                    ('red', red, 'identity-less reduction (max/min/argmax/argmin) of the rank-local array `%s`' % P,
+                     'raises ValueError (zero-size array to reduction operation) on a rank that owns no frame'),
+                    ('elt', elt, 'element 0 of the rank-local array `%s`' % P, 'raises IndexError on a rank that owns no frame')):
+                bad = [x for x in sites if not _guarded_nonempty(fi, mod, x, P, fn)]
+                for x in sites:
+                    if x not in bad:
+                        ck.ok(rule, mod, x, u(x), 'evaluated only when `%s` is non-empty' % P)
+                if bad:
+                    ck.bad(rule, mod, bad[0], q, construct,
+                           '%s %s (`%s` is empty there; more ranks than trajectories: the quantifier of C14 includes such worlds, and the '
+                           'striped loaders hand out empty blocks); the other ranks then wait in the next collective. Guard it with a '
+                           'non-emptiness test / use the identity of the reduction' % (
+                               ', '.join(sorted({'`%s` (line %d)' % (u(x)[:40], getattr(x, 'lineno', 0)) for x in bad})), what, P))
+                elif not sites:
+                    ck.ok(rule, mod, fn, '%s(%s): no %s' % (q, P, 'identity-less reduction' if kind == 'red' else 'read of element 0'), 'nothing to guard')
+    ck.floor(rule, n, 8, 'rank-local parameters of the striped operations and the MPI k-centers iteration')
+
+
+def _same_length_as_param(fi, name, here, param, depth=4):
+    """some value `name` may hold at statement `here` has one element per
+    element of the caller-supplied parameter `param` (the parameter itself,
+    list(p), sorted(p), tuple(p), [f(x) for x in p], ...)."""
+    for site in fi.rd.defs_at(here, name):
+        if site == 'PARAM':
+            if name == param:
+                return True
+            continue
+        if site == 'UNBOUND' or depth <= 0 or not isinstance(site, (ast.Assign, ast.AnnAssign)):
+            continue
+        v = fi.def_value(site, name)
+        src = None
+        if isinstance(v, ast.Call) and call_name(v) in ('list', 'tuple', 'sorted', 'np.array', 'np.asarray') and len(v.args) >= 1:
+            src = v.args[0]
+        elif isinstance(v, ast.ListComp) and len(v.generators) == 1 and not v.generators[0].ifs:
+            src = v.generators[0].iter
+        if isinstance(src, ast.Name) and _same_length_as_param(fi, src.id, site, param, depth - 1):
+            return True
+    return False
+
+
+def _needs_nonempty(mod, fn, param):
+    """[(subscript node, text)]: reads of element 0 / -1 of the parameter (or
+    of a list with one element per element of it) that the callee evaluates
+    without having established that the parameter is non-empty.  Reads inside
+    comprehensions are ignored (a comprehension over an empty list evaluates
+    nothing)."""
+    fi = finfo(mod, fn)
+    out = []
+    for x in walk_local(fn):
+        if not (isinstance(x, ast.Subscript) and isinstance(x.ctx, ast.Load) and isinstance(x.value, ast.Name)):
+            continue
+        k = const_value(x.slice)
+        if k not in (0, -1) or isinstance(k, bool):
+            continue
+        if enclosing(mod, x, (ast.ListComp, ast.SetComp, ast.DictComp, ast.GeneratorExp, ast.Lambda), stop=fn) is not None:
+            continue
+        here = fi.stmt(x)
+        if here is None or not _same_length_as_param(fi, x.value.id, here, param):
+            continue
+        guarded = False
+        for c, o in path_atoms(fi, here):
+            if isinstance(c, tuple):
+                if c[0] == 'expr' and c[2] and isinstance(c[1], ast.Name) and _same_length_as_param(fi, c[1].id, o, param):
+                    guarded = True
+                continue
+            for nm in {param, x.value.id}:
+                rg = int_range(fi, c, 'len(%s)' % nm, o)
+                if rg is not None and not _permits(rg, 0):
+                    guarded = True
+        if not guarded:
+            out.append((x, u(x)))
+    return out
+
+
+def _own_stripe(fi, e, here):
+    """base text X if the expression denotes X[mpi.rank()::mpi.size()], else None."""
+    t = xn(fi, e, here)
+    if isinstance(t, ast.Subscript) and isinstance(t.slice, ast.Slice) and t.slice.upper is None and t.slice.lower is not None and \
+            t.slice.step is not None and u(t.slice.lower) == 'mpi.rank()' and u(t.slice.step) == 'mpi.size()':
+        return u(t.value), u(t)
+    return None
+
+
+def _every_rank_owns_one(fi, here, base, stripe):
+    """the path condition of `here` implies that the own stripe is non-empty:
+    len(<base>) >= mpi.size() (a smaller list was rejected), or a test on the
+    length / truth value of the stripe itself."""
+    for c, o in path_atoms(fi, here):
+        if isinstance(c, tuple):
+            if c[0] == 'expr' and c[2] and xt(fi, c[1], o) == stripe:
+                return True
+            continue
+        if atom_rel(fi, c, 'len(%s)' % base, 'mpi.size()', o) in ('>=', '>'):
+            return True
+        rg = int_range(fi, c, 'len(%s)' % stripe, o)
+        if rg is not None and not _permits(rg, 0):
+            return True
+    return False
+
+
+def d12_empty_stripe(ck):
+    """A striped loader hands its OWN stripe x[rank::size] - empty on a rank
+    beyond len(x) - to a package function.  If that function reads element 0
+    of the corresponding parameter (or of a list with one entry per element)
+    without a non-emptiness test, the call must itself be limited to ranks
+    that own something (or the loader must reject len(x) < size up front, as
+    load_trajectory_as_striped does)."""
+    rule = 'C14.D10.every-rank.empty-stripe'
+    res, _ea = shared(ck.repo)
+    mod = ck.repo.mod(IO)
+    n = 0
+    for q in ('load_h5_as_striped', 'load_npy_as_striped', 'load_trajectory_as_striped'):
+        fn = mod.functions.get(q)
+        if fn is None:
+            ck.missing(rule, 'function %s in %s' % (q, IO))
+            continue
+        fi = finfo(mod, fn)
+        for call in calls_in(fn):
+            t = res.resolve_call(mod, call)
+            m2, f2 = res.function_node(t)
+            if f2 is None:
+                continue
+            here = fi.stmt(call)
+            ps2 = params(f2)
+            bound = [(ps2[i], a) for i, a in enumerate(call.args) if i < len(ps2) and not isinstance(a, ast.Starred)] + \
+                [(k.arg, k.value) for k in call.keywords if k.arg]
+            for pname, a in bound:
+                os_ = _own_stripe(fi, a, here)
+                if os_ is None or pname not in ps2:
+                    continue
+                base, stripe = os_
+                n += 1
+                ck.analysed(mod, fn)
+                needs = _needs_nonempty(m2, f2, pname)
+                role = '%s(%s=<own stripe of %s>)' % (call_name(call), pname, base)
+                if not needs:
+                    ck.ok(rule, mod, call, role, '%s tolerates an empty `%s`' % (t.qual, pname))
+                elif _every_rank_owns_one(fi, here, base, stripe):
+                    ck.ok(rule, mod, call, role, 'the call runs only on ranks that own at least one element of `%s`' % base)
+                else:
+                    ck.bad(rule, mod, call, q, role,
+                           'on a rank r >= len(%s) (more ranks than rows/files) the own stripe %s is empty, and %s::%s reads %s without a '
+                           'non-emptiness test (line %d): IndexError on that rank only, the other ranks return and wait in the next collective. '
+                           'Neither the call is limited to ranks that own something nor does %s reject len(%s) < mpi.size()'
+                           % (base, stripe, t.rel, t.qual, needs[0][1], getattr(needs[0][0], 'lineno', 0), q, base))
+    ck.floor(rule, n, 2, 'calls of the striped loaders that hand their own stripe to a package function')
+
+
+def d13_per_file_options(ck):
+    """argument/parameter agreement of the striped trajectory loader: it hands
+    load_as_concatenated its own stripe of the file list and forwards
+    **kwargs.  Every option of the callee that is PER FILE - the callee itself
+    compares its length with len(filenames) - must be striped in the same way
+    before it is forwarded (finding traj-striped-lengths-kwarg)."""
+    rule = 'C14.D3.striping.per-file-options'
+    res, _ea = shared(ck.repo)
+    mod = ck.repo.mod(IO)
+    q = 'load_trajectory_as_striped'
+    fn = mod.functions.get(q)
+    if fn is None:
+        ck.missing(rule, 'function %s in %s' % (q, IO))
+        return
+    fi = finfo(mod, fn)
+    kw = fn.args.kwarg.arg if fn.args.kwarg is not None else None
+    n = 0
+    for call in calls_in(fn):
+        t = res.resolve_call(mod, call)
+        m2, f2 = res.function_node(t)
+        if f2 is None or kw is None or not any(k.arg is None and isinstance(k.value, ast.Name) and k.value.id == kw for k in call.keywords):
+            continue
+        here = fi.stmt(call)
+        ps2 = params(f2)
+        striped = [k.arg for k in call.keywords if k.arg and _own_stripe(fi, k.value, here) is not None] + \
+            [ps2[i] for i, a in enumerate(call.args) if i < len(ps2) and not isinstance(a, ast.Starred) and _own_stripe(fi, a, here) is not None]
+        if not striped:
+            continue
+        ck.analysed(mod, fn)
+        f2i = finfo(m2, f2)
+        per_file = []
+        for cmp_ in [x for x in walk_local(f2) if isinstance(x, ast.Compare) and len(x.ops) == 1 and isinstance(x.ops[0], (ast.Eq, ast.NotEq))]:
+            sides = [cmp_.left, cmp_.comparators[0]]
+            lens = [s.args[0].id for s in sides if isinstance(s, ast.Call) and call_name(s) == 'len' and len(s.args) == 1 and isinstance(s.args[0], ast.Name)]
+            if len(lens) == 2 and set(lens) & set(striped):
+                per_file += [p for p in lens if p not in striped and p in ps2 and p not in per_file]
+        passed = {k.arg for k in call.keywords if k.arg}
+        for p in per_file:
+            n += 1
+            construct = 'per-file option `%s` forwarded to %s with the striped `%s`' % (p, t.qual, striped[0])
+            if p in passed:
+                v = next(k.value for k in call.keywords if k.arg == p)
+                ck.check(_own_stripe(fi, v, here) is not None or const_value(v) is None and isinstance(v, ast.Constant), rule, mod, call, q, construct,
+                         'passed explicitly, striped like the files', '`%s` is passed unstriped next to the striped `%s`' % (p, striped[0]))
+                continue
+            stores = [(st, tg) for st, tg in subscript_stores(fn, kw) if const_value(tg.slice) == p and isinstance(st, ast.Assign)]
+            ok_store = [st for st, tg in stores if _own_stripe(fi, st.value, st) is not None and fi.cfg.reachable(st, here)]
+            mentions = [x for x in walk_local(fn) if isinstance(x, ast.Constant) and x.value == p]
+            if ok_store:
+                ck.ok(rule, mod, ok_store[0], construct, '%s[%r] is replaced by its own stripe before the call' % (kw, p))
+            elif not mentions:
+                ck.bad(rule, mod, call, q, construct,
+                       '%s compares len(%s) with len(%s) (one entry per file), and %s hands it `%s[mpi.rank()::mpi.size()]` but forwards '
+                       '`%s` untouched through **%s: on a world of more than one rank the callee\'s own consistency check rejects the (correct) '
+                       'option on every rank, although it is documented for %s as a speed benefit only. It must be striped like the files '
+                       '(as is done for the other per-file option%s)' % (t.qual, p, striped[0], q, striped[0], p, kw, q,
+                                                                        ' ' + ', '.join('`%s`' % x for x in per_file if x != p) if len(per_file) > 1 else ''))
+            else:
+                ck.missing(rule, 'handling of the per-file option `%s` in %s not recognised' % (p, q))
+    ck.floor(rule, n, 2, 'per-file options of load_as_concatenated reachable through **kwargs of load_trajectory_as_striped')
+
+
+def _ragged_valued(e):
+    """the (expanded) expression is a RaggedArray by construction: a
+    constructor call, or an elementwise comparison / arithmetic with one."""
+    if isinstance(e, ast.Call) and (call_name(e) or '') in ('ra.RaggedArray', 'RaggedArray'):
+        return True
+    if isinstance(e, ast.Compare) and len(e.ops) == 1:
+        return _ragged_valued(e.left) or _ragged_valued(e.comparators[0])
+    if isinstance(e, ast.BinOp):
+        return _ragged_valued(e.left) or _ragged_valued(e.right)
+    if isinstance(e, ast.UnaryOp):
+        return _ragged_valued(e.operand)
+    return False
+
+
+def d14_ragged_where(ck):
+    """type provenance: numpy's where/nonzero/argwhere cannot index a ragged
+    container (numpy converts it through the sequence protocol: rows of
+    unequal length are an inhomogeneous sequence -> ValueError; it only works
+    by accident when all rows have the same length).  The package's
+    ragged-aware counterpart is ra.where (finding ctr-ids-mpi-flat-ragged)."""
+    rule = 'C14.D4.pair-orientation.ragged-where'
+    n = 0
+    seen_bad = set()
+    for rel in (OPS, KM, KC):
+        mod = ck.repo.mod(rel)
+        for q, fn in mod.functions.items():
+            fi = None
+            for c in calls_in(fn):
+                cn = call_name(c) or ''
+                if cn not in ('np.where', 'np.nonzero', 'np.argwhere', 'ra.where', 'numpy.where') or len(c.args) != 1:
+                    continue
+                fi = fi or finfo(mod, fn)
+                here = fi.stmt(c)
+                if here is None:
+                    continue
+                e = xn(fi, c.args[0], here)
+                if not _ragged_valued(e):
+                    continue
+                n += 1
+                ck.analysed(mod, fn)
+                if cn != 'ra.where' and (rel, q) in seen_bad:
+                    continue
+                if cn != 'ra.where':
+                    seen_bad.add((rel, q))
+                ck.check(cn == 'ra.where', rule, mod, c, q, '%s(<RaggedArray-valued mask>)' % ('ra.where' if cn == 'ra.where' else 'numpy where/nonzero'),
+                         'ragged-aware where on a ragged mask',
+                         '`%s` receives a RaggedArray (%s): numpy converts it through the sequence protocol, which fails for rows of unequal '
+                         'length (ValueError: inhomogeneous shape) - the (trajectory, frame) lookup works only when all trajectories have the same '
+                         'length; use ra.where' % (u(c)[:80], u(e)[:100]))
+    ck.floor(rule, n, 2, 'where() calls on RaggedArray-valued masks (randind, ctr_ids_mpi)')
+
+
 def d10_every_rank(ck):
     """Rules added after the seeding rounds (DESIGN.md 11.2, G1/G2): the
     striped loaders and reductions must work on a rank that owns nothing
@@ -2233,6 +2767,10 @@ def check(ck):
     from .C02 import d1_farthest
     d1_farthest(ck)
     d10_every_rank(ck)
+    d11_empty_local(ck)
+    d12_empty_stripe(ck)
+    d13_per_file_options(ck)
+    d14_ragged_where(ck)
     ck.assume('SPMD calling convention: every rank calls the library with the same kind of arguments '
               '(None-ness, flags, replicated parameters as listed in the uniformity table)')
     ck.assume('a user-supplied k-medoids cost callable returns a rank-uniform value (the default _msq is all-reduced)')
